@@ -102,6 +102,21 @@ func runC02(c *Ctx) {
 	nV := intOpAudit(c, "C02-R12", vmPkg, "VM.executeInstruction", vmPath, "Opcode",
 		map[string]opClass{"OpLt": opOrdering, "OpLe": opOrdering, "OpGt": opOrdering, "OpGe": opOrdering, "OpAdd": opAdd, "OpSub": opSub, "OpMul": opMul}, "VM")
 	c.Sites["C02-R12#operator-arms"] = nI + nV
+	// the two engines order the same kinds of values: an operator that compares strings in one engine compares them
+	// in the other
+	for _, pr := range [][2]string{{"Lt", "OpLt"}, {"Le", "OpLe"}, {"Gt", "OpGt"}, {"Ge", "OpGe"}} {
+		ki, kv := map[string]bool{}, map[string]bool{}
+		for _, h := range armHandlers(c, interpPkg, "Interpreter.evaluateBinaryOp", modPath+"/pkg/ast", "BinOp", pr[0]) {
+			orderingKinds(h, 0, map[*ssa.Function]bool{}, ki)
+		}
+		for _, h := range armHandlers(c, vmPkg, "VM.executeInstruction", vmPath, "Opcode", pr[1]) {
+			orderingKinds(h, 0, map[*ssa.Function]bool{}, kv)
+		}
+		if len(ki) == 0 || len(kv) == 0 {
+			continue
+		}
+		c.ob("C02-R12", "ordering:"+pr[0]+"#both-engines-order-the-same-kinds", token.NoPos, setStr(ki) == setStr(kv), "the interpreter's "+pr[0]+" orders {"+setStr(ki)+"} and the VM's "+pr[1]+" orders {"+setStr(kv)+"}: for the kind only one engine knows (two strings) the comparison answers in one mode and is a 500 in the other")
+	}
 	// reading what is not there: for a field access (o.k) and for an index with a string key (o["k"]) the two
 	// engines take the same way out when the key is absent - both answer (null) or both fail
 	{
